@@ -1065,6 +1065,15 @@ class Harness:
                     except Exception:
                         pass
             try:
+                if self.duplex and not self.server_task.done():
+                    # let the real server side leave the way it does when a client goes away
+                    # (cancelling it would block its cleanup() in _stop() on the loop thread)
+                    if not self.server_reader._eof:
+                        self.server_reader.feed_eof()
+                    for _ in range(8):
+                        self.iterate()
+                        if self.server_task.done():
+                            break
                 if not self.run_task.done():
                     self.run_task.cancel()
                 for _ in range(5):
